@@ -101,6 +101,7 @@ func C18(p *core.Program, r *core.Report) {
 	// held bundle would refresh it)
 	checkNotifyOnce(p, r)
 	checkBudgetEntriesOutliveBundle(p, r)
+	checkRefundOnlyForChosenPeers(p, r)
 
 	g := newGuardedEngine(p)
 	n := g.checkGuarded(r, sprayGuarded, true)
@@ -389,4 +390,30 @@ func checkBudgetEntriesOutliveBundle(p *core.Program, r *core.Report) {
 	}
 	r.Min("deletions of budget entries", 1)
 	r.Count("deletions of budget entries", n)
+}
+
+// checkRefundOnlyForChosenPeers: spray and binary spray refund a copy when a transmission is reported as failed and the
+// peer is in the bundle's sent list - which also holds the previous node. forward also transmits by direct delivery,
+// about which the algorithm was not asked and for which it charged nothing; a failed direct delivery to a destination
+// that is the bundle's previous node must not be refunded. Necessary: forward reports a failure to the algorithm only
+// for peers the algorithm selected (the report is guarded by the flag set where SenderForBundle is consulted).
+func checkRefundOnlyForChosenPeers(p *core.Program, r *core.Report) {
+	fwd := p.Func(routingPkg, "Core", "forward")
+	n := 0
+	core.EachInstrDeep(fwd, func(f *ssa.Function, in ssa.Instruction) {
+		c, ok := in.(*ssa.Call)
+		if !ok || !c.Common().IsInvoke() || c.Common().Method.Name() != "ReportFailure" {
+			return
+		}
+		n++
+		chosen := false
+		for _, cd := range core.DominatingConds(in.Block()) {
+			if cd.True && f != fwd && isChosenByAlgorithmFlag(fwd, f, cd.V) {
+				chosen = true
+			}
+		}
+		r.Check(chosen, "refund/"+fname(f)+"/only-for-peers-the-algorithm-chose", "a failed transmission is reported to the routing algorithm (which refunds a copy for a peer in the bundle's sent list) only if the algorithm selected the peers of this round; a direct delivery is not its doing", p.Pos(in.Pos()), "", "failed direct deliveries are reported as well: if the destination's node is the bundle's previous node it is in the sent list, and the node gains a copy it never spent (binary spray: doubles its count)")
+	})
+	r.Min("failure reports in forward", 1)
+	r.Count("failure reports in forward", n)
 }
